@@ -78,7 +78,7 @@ def gen_graph(rng):
       alias = rng.choice([None, None, 'Imp' + pred])
       m.imports.append((dep, pred, alias))
       name = alias or pred
-      if name in [r['head'] for r in m.rules]:
+      if name in [r['head'] for r in m.rules] + ['Joined']:     # names this module defines itself (Joined: just below)
         alias = 'Ext' + pred
         m.imports[-1] = (dep, pred, alias)
         name = alias
@@ -290,6 +290,9 @@ def run(ck):
       for q in preds:
         r, f = real[q], fl[q]
         rp = {'main': main_text, 'files': files, 'flattened': flat.text(), 'pred': q, 'parser': mode}
+        if 'too_big' in (f['kind'], r['kind']):
+          ck.features['capacity-skipped'] += 1
+          continue
         if f['kind'] != 'ok':
           ck.notes.append('flattened program does not evaluate: %s' % f.get('message', '')[:120])
           continue
